@@ -197,21 +197,22 @@ def strip_markers(lines):
 
 
 def model_agrees(impl, model):
-    """the faithful model predicts the implementation's observations (alarm lines aside); when
-    the implementation died (guard page hit, SIGSEGV), up to its last complete step"""
-    if any(l.startswith("CRASH") for l in impl):
-        last = max((i for i, l in enumerate(impl) if l.startswith("STEP")), default=0)
-        nsteps = sum(1 for l in impl[:last] if l.startswith("STEP"))
-        impl = impl[:last]
-        cut, seen = len(model), 0
-        for i, l in enumerate(model):
-            if l.startswith("STEP"):
-                if seen == nsteps:
-                    cut = i
-                    break
-                seen += 1
-        model = model[:cut]
-    return first_diff(canon(strip_markers(impl)), canon(strip_markers(model))) is None
+    """the faithful model predicts the implementation's observations (alarm lines aside).  Once
+    the implementation has written outside its block (guard zone hit, element outside the
+    block) or died, what it shows afterwards is not meaningful - the harness restores the guard
+    bytes the element was written over: agreement is required up to that point"""
+    cut = None
+    for i, l in enumerate(impl):
+        if l.startswith("CRASH") or l.startswith("GUARD") or l.startswith("PATHERR element-outside-block"):
+            cut = i
+            break
+    a = canon(strip_markers(impl if cut is None else impl[:cut]))
+    b = canon(strip_markers(model))
+    if cut is None:
+        return first_diff(a, b) is None
+    # the last (incomplete) step of the prefix: compare line by line up to the cut
+    last = max((i for i, l in enumerate(a) if l.startswith("STEP")), default=0)
+    return a[:last] == b[:last] and all(x in b[last:last + 4 * (len(a) - last) + 8] for x in a[last:])
 
 
 def first_diff(a, b):
